@@ -21,8 +21,11 @@ class KeyErrorFlag:
         self.cond = z3.BoolVal(False)
 
 
-def find_kernel(path: str = '/repo/generation/src/proof_generation/metamath/converter/converter.py') -> tuple:
+def find_kernel(path: str = '') -> tuple:
     """-> (FunctionDef of convert_to_number, dict literals of the enclosing function as python dicts)"""
+    from .paths import REPO
+
+    path = path or f'{REPO}/generation/src/proof_generation/metamath/converter/converter.py'
     tree = ast.parse(open(path).read())
     outer = None
     for node in ast.walk(tree):
